@@ -9,7 +9,7 @@ import sys
 
 from ..core import AnchorError, call_name, dotted_text, names_in, norm, short, own_nodes, kwarg, FUNC_TYPES
 from ..cfg import cfg_of
-from ..lib import (calls_in, stmts_in, gate, must_pass, node_has, paired_correlated, params, param_default,
+from ..lib import (calls_in, stmts_in, gate, must_pass, node_has, paired_correlated, params, param_default, effective_body,
                    attr_stores)
 
 ACCESS = 'jedi.inference.compiled.access'
@@ -209,7 +209,7 @@ def rule_b(repo, chk):
                 chk.ob('C12.b', False, x, 'loader name appears as a string constant (reflective call?)')
     # reflective dispatch sites stay as modelled
     gf = repo.find(SUB, '_get_function')
-    ok = len(gf.body) == 1 and isinstance(gf.body[0], ast.Return) and norm(gf.body[0].value) == 'getattr(functions, name)'
+    ok = [norm(x) for x in effective_body(gf)] == ['return getattr(functions, name)']
     chk.ob('C12.b', ok, gf, 'compiled_subprocess.<name> dispatches to functions.<name> (model of the reflective call)')
     sites = repo.calls_of('_load_builtin_module')
     k = 0
